@@ -694,6 +694,11 @@ def rule_purity(rep, res, entry=None, rule="R-PURITY", ignore_origins=()):
                          msg=f"in-place update of an array that may share memory with {what} `{', '.join(origins)}` "
                              f"(reached only through views: asarray/atleast_nd/basic slicing/attribute load, no copy): "
                              f"the argument is modified and repeated calls give different answers")
+    # one summary obligation per analysed run, so that the rule stays anchored when a refactoring removes every in-place write
+    # (results collected in a list and stacked): the path was analysed, and it writes into no array it did not allocate
+    if not any(o.rule == rule and o.status == "VIOLATED" and o.entry == entry and o.config == res.config for o in rep.obls):
+        rep.holds(rule, "no in-place write reaches an array of the caller", where=res.fn.loc(), construct=f"in-place writes on the path of {res.fn.name}",
+                  entry=entry, config=res.config, msg=f"{n} in-place write site(s), each into an array allocated inside the call")
     return n
 
 
